@@ -30,11 +30,11 @@ def M(cmd, obj="", run="", a="", **kw):
     if run:
         m["run"] = run
     args, kwargs = [], {}
-    if cmd in ("create", "monitor"):
-        kwargs["name"] = a or ("primary" if cmd == "create" else obj)
+    if cmd in ("create", "monitor", "declare_stream"):
+        kwargs["name"] = a or ("primary" if cmd != "monitor" else obj)
     elif cmd == "close_run" and a:
         kwargs["exit_status"] = a
-    elif cmd in ("set", "trigger", "stage", "unstage", "kickoff", "complete") and a:
+    elif cmd in ("set", "trigger", "stage", "unstage", "kickoff", "complete", "prepare") and a:
         kwargs["group"] = a
     elif cmd == "wait":
         kwargs["group"] = a or None
@@ -48,13 +48,13 @@ def M(cmd, obj="", run="", a="", **kw):
         args = [{}]
     elif cmd in ("install_suspender", "remove_suspender"):
         args = [a]          # the suspender's name: replaced by the object when the plan is built
-    if cmd == "set":
+    if cmd in ("set", "prepare"):
         args = [kw.get("value", 1)]
     if args:
         m["args"] = args
     if kwargs:
         m["kwargs"] = kwargs
-    m["_a"] = a if cmd not in ("create", "monitor") else kwargs["name"]
+    m["_a"] = a if cmd not in ("create", "monitor", "declare_stream") else kwargs["name"]
     return m
 
 
@@ -172,6 +172,8 @@ PROGRAMS = {
     # flyers (kickoff / complete / collect; old-style describe_collect, one event page per collect)
     "fly": {"msgs": [M("open_run"), M("checkpoint"), M("kickoff", "fly1", a="g1"), M("wait", a="g1"), M("complete", "fly1", a="g2"), M("wait", a="g2"),
                      M("collect", "fly1"), M("close_run")]},
+    "fly_prep": {"msgs": [M("open_run"), M("checkpoint"), M("prepare", "fly1", a="g0"), M("wait", a="g0"), M("kickoff", "fly1", a="g1"), M("wait", a="g1"),
+                          M("complete", "fly1", a="g2"), M("wait", a="g2"), M("collect", "fly1"), M("null"), M("close_run")]},
     # never collected by the plan, run left open: the engine's clean-up collects (backstop_collect) and closes the run
     "fly_left": {"msgs": [M("open_run"), M("checkpoint"), M("kickoff", "fly1", a="g1"), M("wait", a="g1"), M("null"), M("null")]},
     # the plan's own clean-up closes the run (what run_wrapper does around bp.fly)
@@ -184,11 +186,21 @@ PROGRAMS = {
     # two concurrent runs, a monitor in the first, one flyer in each, nothing collected or closed by the plan
     "fly_multi": {"msgs": [M("open_run", run="k1"), M("monitor", "mon1", run="k1"), M("open_run", run="k2"), M("checkpoint"),
                            M("kickoff", "fly1", run="k1", a="g1"), M("kickoff", "fly2", run="k2", a="g1"), M("wait", a="g1"), M("null")]},
+    # pre-declared streams: the descriptor is emitted by declare_stream, a later save into the stream does not describe it again
+    "declare": {"msgs": [M("open_run"), M("checkpoint"), M("declare_stream", "det", a="primary")] + _point + [M("checkpoint")] + _point + [M("null"), M("close_run")]},
+    # ... declared again after data and a re-configuration
+    "declare_mix": {"msgs": [M("open_run"), M("checkpoint"), M("declare_stream", "det2", a="baseline"), M("create", a="baseline"), M("read", "det2"), M("save"),
+                             M("configure", "det2"), M("checkpoint"), M("declare_stream", "det2", a="baseline"), M("create", a="baseline"), M("read", "det2"), M("save"),
+                             M("null"), M("close_run")],
+                    "kind": "finally", "try": [2, 13], "cleanup": [14, 14]},
+    # another object than the declared one is read into the stream: the save is rejected (uninterrupted only, as badsave_fin)
+    "declare_bad": {"msgs": [M("open_run"), M("checkpoint"), M("declare_stream", "det2", a="baseline"), M("create", a="baseline"), M("read", "det"), M("save"),
+                             M("null"), M("close_run")], "kind": "finally", "try": [2, 7], "cleanup": [8, 8]},
     "cfginb": {"msgs": [M("open_run"), M("checkpoint"), M("create", a="primary"), M("read", "det"), M("configure", "det"), M("save"), M("close_run")]},
 }
 ASYNC_PLANS = {"amove", "aopen", "aselfpause_nores"}      # devices whose stop()/pause()/resume() are coroutines that really suspend
 MULTI_RUN_PLANS = {"multi", "multimon", "dupopen", "multi_close", "fly_multi"}
-FLY_PLANS = {"fly", "fly_left", "fly_fin", "fly_twice", "fly_multi"}
+FLY_PLANS = {"fly", "fly_prep", "fly_left", "fly_fin", "fly_twice", "fly_multi"}
 NOT_CONFORMANCE = {"dropper"}        # use commands RE.tla does not model (yet): monitored only
 
 BUILTINS = {
@@ -502,7 +514,7 @@ def corpus_spec(tier):
     sweeps = []
     progs = ["simple", "two", "fin", "move", "mon", "multi", "defer", "norew", "paus", "err", "openonly", "mon_then", "nores_open", "nores_rew", "nores_rew_ckpt", "nores_then_ckpt", "unstage_only", "cfg_late", "multi_close", "amove", "aopen", "aselfpause_nores",
              "selfpause", "selfpause_nores", "selfpause_nores_fin", "selfdefer_nores", "norew_save",
-             "fly", "fly_left", "fly_fin", "fly_twice", "fly_multi"]
+             "fly", "fly_prep", "fly_left", "fly_fin", "fly_twice", "fly_multi", "declare", "declare_mix"]
     kinds = REQ_KINDS
     if quick:
         sweeps.append(dict(plans=progs, kinds=["pause", "suspend", "abort"], decisions=["resume"], ri=True))
@@ -554,6 +566,7 @@ def build_corpus(tier, only=None):
             sc0["id"] = f"badconsumer:{pn}|doc:{kind}"
             scs.append(sc0)
     scs.append(base_scenario("badsave_fin"))       # (uninterrupted only: a rewind would replay the rejected bundle)
+    scs.append(base_scenario("declare_bad"))
     scs += fault_scenarios(tier)
     scs += monitor_scenarios(tier)
     scs += suspender_scenarios(tier)
@@ -1199,7 +1212,8 @@ MC_JOBS = {
               # seeded random programs over the whole vocabulary, one request of any kind, every caller decision
               ("rp0", dict(max_req=1)), ("rp5", dict(max_req=1)),
               # flyers: collect inside the plan, the engine's backstop collection (one more park inside the finally block), two runs
-              ("fly_left", dict(max_req=1, flyers=["fly1"])), ("fly", dict(max_req=1, flyers=["fly1"], max_faults=1, fault_kinds=["raise"]))],
+              ("fly_left", dict(max_req=1, flyers=["fly1"])), ("fly", dict(max_req=1, flyers=["fly1"], max_faults=1, fault_kinds=["raise"])),
+              ("declare", dict(max_req=1))],
     "thorough": [("simple", dict(max_req=2)), ("fin", dict(max_req=2)), ("two", dict(max_req=2, req_kinds=["pause", "suspend", "abort", "defer"])),
                  ("move", dict(max_req=1, max_faults=1, fault_kinds=["raise", "fail", "later"])),
                  ("mon", dict(max_req=1, max_updates=2)), ("multi", dict(max_req=1)), ("defer", dict(max_req=2, req_kinds=["defer", "pause", "abort"])),
@@ -1212,7 +1226,8 @@ MC_JOBS = {
                 + [("fly_left", dict(max_req=2, flyers=["fly1"])), ("fly", dict(max_req=1, flyers=["fly1"], max_faults=1, fault_kinds=["raise", "fail", "later"])),
                    ("fly_fin", dict(max_req=2, req_kinds=["pause", "abort", "stop", "halt"], flyers=["fly1"])),
                    ("fly_twice", dict(max_req=1, flyers=["fly1"], max_faults=1, fault_kinds=["raise"])),
-                   ("fly_multi", dict(max_req=1, flyers=["fly1", "fly2"], max_updates=1))],
+                   ("fly_multi", dict(max_req=1, flyers=["fly1", "fly2"], max_updates=1)), ("fly_prep", dict(max_req=1, flyers=["fly1"])),
+                   ("declare", dict(max_req=2, req_kinds=["pause", "suspend", "abort"])), ("declare_mix", dict(max_req=1))],
 }
 
 
